@@ -21,8 +21,8 @@
 //	    original and the reread handle interoperate.
 //
 // Observation: what the model must reproduce from the line alone (serialised
-// bytes, field text, handle shape) followed by "|chk=ok" or "|chk=<what failed>"
-// from the direct checks (which need no model).
+// bytes, field text, handle shape).  The verdict of the direct checks (which
+// need no model) is kept aside by run and returned by check.
 package c12
 
 import (
